@@ -359,7 +359,8 @@ class SimpleTypes:
     def _invoke(self, target, tcls, call, f, cls, acc, env, depth):
         params = target.params[1:] if target.kind == "classmethod" else target.params
         new_env = {}
-        for p, a in zip(params, call.args):
+        bound = list(zip(params, call.args)) + [(k.arg, k.value) for k in call.keywords if k.arg]   # positional and by keyword
+        for p, a in bound:
             if self._is_value(a, env):
                 new_env[p] = "VALUE"
             else:
